@@ -86,8 +86,10 @@ class Module:
         self.src = raw.decode("utf-8")
         self.tree = ast.parse(self.src, filename=rel)
         self.name = os.path.splitext(os.path.basename(rel))[0]
-        # locals are mapped back to the names they have in the pinned tree, by their definitions (see canon.py)
-        from . import canon
+        # one spelling for `if not X .. else ..` / `x = x + e` (normal.py); then locals are mapped back to the names
+        # they have in the pinned tree, by their definitions (canon.py)
+        from . import canon, normal
+        normal.normalise(self.tree)
         self.canon_renamed = canon.apply(self.tree, self.name)
         self.classes = {}
         self.funcs = {}
